@@ -3,7 +3,10 @@ import ZvbiModel.Export.Model
 import ZvbiModel.Export.Page
 import ZvbiModel.Export.Text
 import ZvbiModel.Export.Html
+import ZvbiModel.Export.HtmlInst
 import ZvbiModel.Export.Ppm
+import ZvbiModel.Export.Xpm
+import ZvbiModel.Export.PrintNT
 import ZvbiModel.Export.Font
 import ZvbiModel.Export.Spec
 /-! Model driver for component `export` (C16); same line protocol as harness/export_harness.c -/
@@ -19,6 +22,8 @@ structure Session where
 structure DSt where
   page : Option Page := none
   sess : Option Session := none
+  /-- ONE html export object (`htmlnew`): its options and the state that survives an export -/
+  html : Option (HtmlEnv × HtmlInst) := none
 
 def init : DSt := {}
 
@@ -152,8 +157,8 @@ def doPrint (pg? : Option Page) (table : Bool) (fmt : String) (size : Int) (v : 
   | none => "rej state"
   | some pg =>
     if !(knownFormats.contains fmt) || !(v.all fun x => inRange x (-100000) 100000) then "rej parse" else
-    if !table then "ok bounded" else
-    match printRegion currentCfg (conv fmt) pg size (v.getD 0 0) (v.getD 1 0) (v.getD 2 0) (v.getD 3 0) with
+    match (if table then printRegion currentCfg (conv fmt) pg size (v.getD 0 0) (v.getD 1 0) (v.getD 2 0) (v.getD 3 0)
+           else printRegionNT currentCfg (conv fmt) pg size (v.getD 0 0) (v.getD 1 0) (v.getD 2 0) (v.getD 3 0)) with
     | .error f => s!"ok FAULT {repr f}"
     | .ok none => "ok 0 -"
     | .ok (some out) => s!"ok {out.length} {toHex out}"
@@ -173,7 +178,7 @@ def step (st : DSt) (ws : List String) : DSt × String :=
   | "probe" :: _ =>
     (init, s!"ok wideclip={if currentCfg.wideClip then 1 else 0} nullguard={if currentCfg.nullGuard then 1 else 0} e2big={if currentCfg.printE2big then 1 else 0} atone={if currentCfg.atOneByte then 1 else 0}")
   | "probehtml" :: _ =>
-    (init, s!"ok titlelt={if currentHtmlCfg.titleLt then 1 else 0} gfxesc={if currentHtmlCfg.gfxEscaped then 1 else 0} italfont={if currentFontClamp then 1 else 0}")
+    (init, s!"ok titlelt={if currentHtmlCfg.titleLt then 1 else 0} gfxesc={if currentHtmlCfg.gfxEscaped then 1 else 0} italfont={if currentFontClamp then 1 else 0} reuse={if currentInstReset then 1 else 0}")
   | "htmlexp" :: rest =>
     if rest.length != 8 then (st, "rej parse") else
     (match allInts rest with
@@ -195,6 +200,60 @@ def step (st : DSt) (ws : List String) : DSt × String :=
           -- (the list-based write layer is quadratic on outputs of this size, so the driver does not run it here)
           let d := Zvbi.Export.Spec.output ops
           (st, s!"ok {d.length} {toHex d}"))
+  | "htmlnew" :: rest =>
+    if rest.length != 4 then (st, "rej parse") else
+    (match allInts rest with
+    | none => (st, "rej parse")
+    | some v =>
+      let g := fun i => v.getD i 0
+      if (v.any (· < 0)) || g 0 < 10 || g 0 > 99999 || (rest.getD 0 "").startsWith "0" || g 1 > 1 || g 2 > 1 || g 3 > 1 then (st, "rej parse") else
+      let env : HtmlEnv := { gfx := gfxOption (g 0).toNat, color := g 1 == 1, header := g 2 == 1, reveal := g 3 == 1,
+                             creator := s2b "verif", network := none }
+      ({ st with html := some (env, HtmlInst.fresh) }, "ok htmlnew"))
+  | "htmlrun" :: rest =>
+    (match rest with
+    | [t, a, b, c, d] =>
+      (match allInts [a, b, c, d] with
+      | none => (st, "rej parse")
+      | some v =>
+        let g := fun i => v.getD i 0
+        if !(["alloc", "mem", "fp", "file"].contains t) || (v.any (· < 0)) || !(htmlFonts.contains (g 0)) || g 1 > 0x8FF || g 2 > 0x3F7F
+            || g 3 > 39 then (st, "rej parse") else
+        match st.page, st.html with
+        | some pg, some (base, inst) =>
+          let env : HtmlEnv := { base with font := (g 0).toNat, pgno := (g 1).toNat, subno := (g 2).toNat, screenColor := (g 3).toNat }
+          let r1 := htmlExport currentInstReset currentHtmlCfg convLatin1 inst env pg
+          (match r1.1 with
+          | .error f => (st, s!"ok FAULT {repr f}")
+          | .ok ops1 =>
+            let d1 := Zvbi.Export.Spec.output ops1
+            if t == "mem" then
+              -- the size query and then the export into a buffer of that size, with the same object
+              let r2 := htmlExport currentInstReset currentHtmlCfg convLatin1 r1.2 env pg
+              (match r2.1 with
+              | .error f => (st, s!"ok FAULT {repr f}")
+              | .ok ops2 =>
+                let d2 := Zvbi.Export.Spec.output ops2
+                ({ st with html := some (base, r2.2) }, s!"ok {d1.length} {d2.length} {toHex (d2.take d1.length)}"))
+            else ({ st with html := some (base, r1.2) }, s!"ok {d1.length} {d1.length} {toHex d1}"))
+        | _, _ => (st, "rej state"))
+    | _ => (st, "rej parse"))
+  | "xpmexp" :: rest =>
+    if rest.length != 5 then (st, "rej parse") else
+    (match allInts rest with
+    | none => (st, "rej parse")
+    | some v =>
+      let g := fun i => v.getD i 0
+      if (v.any (· < 0)) || g 0 > 1 || g 1 > 1 || g 2 > 1 || g 3 > 0x8FF || g 4 > 0x3F7F then (st, "rej parse") else
+      match st.page with
+      | none => (st, "rej state")
+      | some pg =>
+        let env : XpmEnv := { doubleHeight := g 0 == 1, transparency := g 1 == 1, titled := g 2 == 1, creator := s2b "verif",
+                              pgno := (g 3).toNat, subno := (g 4).toNat }
+        let geo := ppmGeom pg.columns env.doubleHeight
+        let hdr := Zvbi.Export.Spec.output (xpmHeaderOps env (fun i => pg.colorMap.getD i 0) (ppmWidth pg.columns geo) (ppmHeight pg.rows geo))
+        let ftr := Zvbi.Export.Spec.output (xpmFooterOps env)
+        (st, s!"ok {hdr.length + pg.rows * xpmRowSize pg.columns geo + ftr.length} hdr={toHex hdr} ftr={toHex ftr} px=1"))
   | "ppmexp" :: rest =>
     (match rest with
     | [a] =>
